@@ -34,6 +34,9 @@ func engineSpec(id string, profiles []lab.Profile, opts lab.RunOpts, check func(
 			if len(sc.Plans) > 1 {
 				res.Label("multi-plan")
 			}
+			if sc.CancelStartUs != 0 {
+				res.Label("start-context-cancelled-mid-run")
+			}
 			check(rr, &res)
 			return res
 		},
